@@ -117,8 +117,8 @@ Proof.
   rewrite nth_error_app1; auto. apply nth_error_Some. congruence.
 Qed.
 
-(* tightness: a raw construction site really does admit a malformed agent *)
-Theorem raw_site_admits_violation sk a : sk_raw_sites sk <> 0 -> ~ wf_agent a ->
+(* tightness: a raw construction site really does let a malformed agent through *)
+Theorem raw_site_allows_violation sk a : sk_raw_sites sk <> 0 -> ~ wf_agent a ->
   exists ops, Forall (fun o => licensed FT sk o = true) ops /\ Forall raw_ok ops /\ ~ Forall wf_agent (heap FT (exec_ops ops)).
 Proof.
   intros Hn Ha. exists [ORaw FT a]. repeat split.
